@@ -157,8 +157,15 @@ class Graph:
         return res
 
 
+# outputs whose bytes legitimately differ between two runs of the same command on the same inputs: GCC
+# precompiled headers embed addresses / a random checksum seed; only their presence is compared
+VOLATILE_SUFFIXES = ('.gch',)
+
+
 def digest(path: Path) -> T.Optional[str]:
     try:
+        if path.name.endswith(VOLATILE_SUFFIXES) and path.is_file():
+            return 'present'
         if path.is_symlink():
             return 'L' + hashlib.sha256(os.readlink(path).encode('utf-8', 'surrogateescape')).hexdigest()[:20]
         if path.is_file():
